@@ -979,7 +979,7 @@ class TorControlProtocol(LineOnlyReceiver):
         # print "startCommand",self.code,line
         self.code = int(line[:3])
         # print "startCommand:",self.code
-        if self.command and self.command[2] is not None:
+        if self._wants_lines():
             self.command[2](line[4:])
         else:
             self.response = line[4:] + '\n'
@@ -1001,9 +1001,18 @@ class TorControlProtocol(LineOnlyReceiver):
                                                                   self.code))
         return line[3] == '+'
 
+    def _wants_lines(self):
+        """
+        True if the reply being received belongs to the in-flight
+        command and that command has a per-line callback. Lines of
+        600-level (asynchronous) replies never go to that callback.
+        """
+        return self.code >= 200 and self.code < 300 and \
+            self.command and self.command[2] is not None
+
     def _accumulate_multi_response(self, line):
         "for FSM"
-        if self.command and self.command[2] is not None:
+        if self._wants_lines():
             self.command[2](line)
 
         else:
@@ -1012,7 +1021,7 @@ class TorControlProtocol(LineOnlyReceiver):
 
     def _accumulate_response(self, line):
         "for FSM"
-        if self.command and self.command[2] is not None:
+        if self._wants_lines():
             self.command[2](line[4:])
 
         else:
